@@ -721,8 +721,13 @@ func (ea *errAnalysis) runE3(rule string, only func(fn *ssa.Function) bool) {
 				}
 			})
 			var bad *ssa.Return
+			var closedFirst ssa.Instruction
+			closeBeforeError := false
 			searchFrom(starts, func(x ssa.Instruction) bool {
 				if isMethodCallOn(x, recv, "Error") {
+					if closedFirst != nil && bad == nil {
+						closeBeforeError = true
+					}
 					return true
 				}
 				// `return itr.Close()` of repo iterators returns the sticky error too
@@ -731,6 +736,8 @@ func (ea *errAnalysis) runE3(rule string, only func(fn *ssa.Function) bool) {
 						if v, ok := x.(ssa.Value); ok && len(refs(v)) > 0 && closeReturnsSticky(callCommon(x)) {
 							return true
 						}
+						// a Close() that is not known to preserve the sticky error, executed before Error() is read
+						closedFirst = x
 					}
 				}
 				if r, ok := x.(*ssa.Return); ok {
@@ -747,7 +754,9 @@ func (ea *errAnalysis) runE3(rule string, only func(fn *ssa.Function) bool) {
 				return false
 			})
 			k := l.fname(fn) + " iterator " + describeRecv(l, recv)
-			if bad == nil {
+			if bad == nil && closeBeforeError {
+				c.bad(rule, k, l.ipos(closedFirst), "the iterator is closed before its Error() is read: a Close() may reset the sticky error (the index iterator's does), so a failed step is reported as the end of the data")
+			} else if bad == nil {
 				c.ok(rule, k, l.ipos(in), "every path from the end of iteration to a success return consults Error()")
 			} else {
 				o := c.bad(rule, k, l.ipos(in), fmt.Sprintf("loop over the iterator can end and reach the success return at %s without Error() being consulted: a failed step looks like end of data", l.ipos(bad)))
